@@ -11,6 +11,7 @@ import Nstd.Future.LiveAll
 import Nstd.Future.LiveReduce
 import Nstd.Future.LiveSpawn
 import Nstd.Future.Terminal
+import Nstd.Future.Fair
 import Nstd.Future.Handshake
 import Nstd.Future.HandshakeWitness
 /-
@@ -235,6 +236,30 @@ theorem join_eventually_partial {cfg : Config} (hrep : cfg.repaired = true) (hwf
     (∀ c, c < s.nextCall → s.completed c = true ∧ s.execCount c = 1 ∧ s.freeCount c = 1) :=
   Nstd.Future.terminal_state_is_complete hrep hwf (runSched_reach Reach.init hrun) hmax
 
+/-- Weak fairness, proved part 1: a weakly fair run (every thread that stays enabled is eventually scheduled) never stalls
+    — from every point on it is either in a state where no thread can step, or its state changes again.  (The only
+    micro-steps that leave a state unchanged are failing spins on the pool-creation spin lock, and then the lock holder is
+    enabled and makes progress.) -/
+theorem fair_run_never_stalls {cfg : Config} {σ : Nat → Tid} {run : Nat → State} (hf : FairRun cfg σ run) (n : Nat) :
+    (∀ t, enabled (run n) t = false) ∨ ∃ m, n ≤ m ∧ run (m + 1) ≠ run m :=
+  fair_run_progresses_or_terminal hf n
+
+/-- Weak fairness, proved part 2 (`join_eventually` relative to a budget): if some `B : State → Nat` never increases along
+    micro-steps and strictly decreases on the state-changing steps at the ten loop heads, on thread creation and when
+    `_tail`/`_head` move, then every weakly fair run of the repaired system reaches a state in which every thread has
+    finished and every started call has been executed and freed exactly once.  Constructing `B` is the OPEN part. -/
+theorem join_eventually_partial_budget {cfg : Config} {σ : Nat → Tid} {run : Nat → State} (hrep : cfg.repaired = true)
+    (hwf : cfg.WellFormed) (B : State → Nat)
+    (hle : ∀ (s s' : State) (t : Tid) (o : List String), Reach cfg s → step s t = some (s', o) → B s' ≤ B s)
+    (hlt : ∀ (s s' : State) (t : Tid) (o : List String) (th : Thread) (fr : Frame) (rest : List Frame),
+      Reach cfg s → step s t = some (s', o) → s' ≠ s → s.threads t = some th → th.stack = fr :: rest →
+      (FR.isBack fr = true ∨ FR.spawns fr = true ∨ FR.rtl s' ≠ FR.rtl s ∨ FR.rhd s' ≠ FR.rhd s) → B s' < B s)
+    (hf : FairRun cfg σ run) :
+    ∃ n, (∀ t th, (run n).threads t = some th → th.finished = true) ∧
+      (∀ c, c < (run n).nextCall →
+        (run n).completed c = true ∧ (run n).execCount c = 1 ∧ (run n).freeCount c = 1) :=
+  join_eventually_of_budget hrep hwf B hle hlt hf
+
 /-- Mutual exclusion and progress of the simulated Signal layer inside the full model (both code variants): the two
     pool signals' mutexes are exclusive; a thread blocked on any Signal mutex has an owner that can step; a thread
     blocked on the pool mutex implies some other thread can step; no sleeper of a pool signal misses a set flag (a setter
@@ -339,7 +364,11 @@ OPEN: join_eventually   (liveness under weak fairness, full model of the repaire
     `no_stuck_while_a_worker_lives`, `signal_layer_progress`, `deadlock_shape`, `started_call_is_never_lost`,
     `terminate_jobs_balance`, `counters_identity`; and the safety half (`join_after_completion`: when join returns the
     call has run exactly once).
-  MISSING for `join_eventually`: that every weakly fair schedule is finite — a ranking argument on top of `no_stuck`; the CAS retry loops of
+  Also proved: `fair_run_never_stalls` (a weakly fair run never stays forever in a non-terminal state) and the reduction
+    `join_eventually_partial_budget` (Fair*.lean: fairness, spinning and schedules are discharged; straight-line code and
+    CAS retries are measured by `frameDist`; what remains is a budget `B : State → Nat` for the ten cross-thread loop heads).
+  MISSING for `join_eventually`: exactly that budget ("remaining pushes/pops + wake credits") with its invariants, i.e.
+    that every weakly fair schedule is finite — a ranking argument on top of `no_stuck`; the CAS retry loops of
     push/pop and the spin lock of the lazily created pool are lock-free, not wait-free, and the back-pressure / idle loops
     re-check; one needs a well-founded measure showing that every fair run reaches the end of the (finite) client
     scripts.  Not attempted.
